@@ -4,6 +4,7 @@ package main
 
 import (
 	"fmt"
+	"os"
 	"go/types"
 	"sort"
 	"strings"
@@ -460,6 +461,9 @@ func (ex *Exec) autoUnfold(inner *SpecEnv, sf *SpecFunc, argv []Term, app Term) 
 	if ex.fuelOverride > 0 {
 		fuel = ex.fuelOverride
 	}
+	if os.Getenv("GOCV_DEBUG_UNFOLD") != "" {
+		fmt.Fprintf(os.Stderr, "autoUnfold %s depth=%d fuel=%d noDefine=%d probing=%d app=%s\n", sf.Name, ex.unfoldDepth, fuel, ex.vc.noDefine, ex.probing, trunc(app.S, 80))
+	}
 	if ex.unfoldDepth >= fuel || ex.vc.noDefine > 0 || ex.probing > 0 {
 		return
 	}
@@ -487,7 +491,8 @@ func (ex *Exec) autoUnfold(inner *SpecEnv, sf *SpecFunc, argv []Term, app Term) 
 	}
 	rhs := n.evalTerm(sf.Body, app.T)
 	fname := strings.Fields(strings.TrimPrefix(app.S, "("))[0]
-	ex.vc.addAxiom(fmt.Sprintf("unfold%d_%s", len(ex.unfolded), fname), sx("=", app.S, rhs.S), fname)
+	ex.vc.counter++
+	ex.vc.addAxiom(fmt.Sprintf("unfold%d_%s", ex.vc.counter, fname), sx("=", app.S, rhs.S), fname)
 }
 
 // frameAxiom: a heap-recursive spec function depends only on the objects in its declared footprint
